@@ -283,6 +283,7 @@ def replay(ctx, path):
     for k in ctx.known:
         if re.fullmatch(r"\w+", k):
             os.environ["C18K_" + k] = "1"
+    path = os.path.abspath(path)
     base = os.path.basename(path)
     comp = next((c for c in COMPS if base.startswith(c + "_") or f".{c}." in base), None)
     recs = vlib.read_ndjson(path)
